@@ -214,6 +214,22 @@ CHECKS['C17'] = dict(
    technique="TLA+ contract on generated ground truth (TLC) + spec->code replay at every position",
    ref="5/C17")
 
+CHECKS['C14'] = dict(
+   text="AbbrResolve.tla takes every user snippet table over 2-3 keys whose definitions are a name, a name with an attribute, with text, "
+        "with a child, or two siblings - over the keys themselves and a plain element, so self-reference, mutual recursion, chains "
+        "and equal definition texts all occur - as an initial state and eight alias uses (plain, with child, class, text, repeater, "
+        "self-closing mark, attribute + child, two top-level items) as steps. The machine is resolve_snippets() as recursive rewriting "
+        "with the stack of definition texts (cycle guard), merge into every top-level node and re-attachment of children below the "
+        "deepest last node; TLC checks DepthBound (stack <= number of distinct definitions), termination of every evaluation and "
+        "AliasIsDefinition (alias = definition written in its place). Every (table, use) is expanded by the real code with the table as "
+        "user snippets and compared on nesting, names, attributes, text and self-closing. Built-ins: every key of the html, xsl and pug "
+        "tables is expanded as alias and as definition (plus class / attribute / text / repeater / child forms for single-element "
+        "definitions) under the matching syntax, format on and off; outputs must be identical.",
+   note="User-table part exhaustive over the stated shapes; built-in part exhaustive over the tables, with the real code as its own "
+        "reference for the definition form (metamorphic).",
+   technique="TLA+ rewriting machine with cycle guard (TLC, exhaustive over tables) + spec->code replay + alias/definition comparison",
+   ref="5/C14")
+
 NOT_YET = {}
 
 def main():
